@@ -19,6 +19,12 @@ STATIC = {
 _TB = "Trusted: Lean kernel; axioms propext/Classical.choice/Quot.sound only; the hand-written model is tied to the code by the correspondence run (generator coverage printed in the evidence); harness canonicalisation. "
 
 LEVELS = {
+    "C11": {
+        "text": "Kernel-checked theorems for every key type with a total-preorder comparison (C12 supplies it for Cmp), every MaxSmallMap and every history of literal construction, set, delete, +, rest and slicing: the representation invariant (strictly sorted, no two equal keys, small => len <= MaxSmallMap) is preserved, the stored pairs equal the reference finite map (a strictly sorted association list with insert/update/delete), every observation (len, lookup incl. binary search, first, pairs = iteration order/printed form/equality) is a function of that reference map, hence independent of insertion order and representation history; about a Lean model of SmallMap/BigMap compared with the real code on ~30k (quick) / ~170k (thorough) histories per run, through the API and through grol source.",
+        "design_ref": "DESIGN.md section 7, C11",
+        "note": _TB + "Modelled: SmallMap/BigMap methods, NewMapSize, BinarySearchFunc, the evaluator's map operations. Not modelled: storage aliasing between variables (C06), out-of-range slices (C07), Inspect of arbitrary values.",
+        "technique": "Lean 4 proof by induction over the operation list (refinement of both representations to a sorted association list; binary-search correctness) + state-space BFS and random differential correspondence run",
+    },
     "C12": {
         "text": "Kernel-checked theorems for all data values (any nesting of nil, booleans, int64, every float64 bit pattern, strings, errors, functions, extensions, quotes, registers, arrays, maps): Cmp never panics and returns -1/0/1, cmp b a = -cmp a b, reflexive, <= and < transitive, total, order-equivalent values interchangeable, the six operators mutually consistent, == an equivalence that implies cmp = 0 and holds for a copy, min/max return an extremal operand; about a Lean model of Cmp/Equals/operators (after two fix: commits) that is compared with the real code on all pairs of a ~150-value universe built through the API and from source and on 10^5 (quick) / 3.7*10^6 (thorough) triples per run.",
         "design_ref": "DESIGN.md section 7, C12",
